@@ -29,6 +29,9 @@ type fleetProfile struct {
 	intruder   bool // one more node with another mapping
 	afterSend  func(g *fleetGen, n *fgNode, msg int, form string)
 	extra      func(g *fleetGen) // property-specific actors
+	// ultrafine: a few runs use accuracies of 1e-7..4e-7 on stores without an array over the index
+	// span (sparse, collapsing): neighbouring bins can then be more than 2^31 indexes apart
+	ultrafine bool
 }
 
 type fgNode struct {
@@ -57,6 +60,7 @@ type fleetGen struct {
 	msgForms   map[int]string
 	msgOwner   map[int]*fgNode
 	binMsgs    []int
+	ultra      bool
 }
 
 func (g *fleetGen) emit(e engine.Event) {
@@ -137,6 +141,10 @@ func (g *fleetGen) mkNode(role, kind string, mapFrom *engine.Node) *fgNode {
 		spec.Map, spec.Alpha, spec.ByGam, spec.Gamma, spec.Offset = mapFrom.Map, mapFrom.Alpha, mapFrom.ByGam, mapFrom.Gamma, mapFrom.Offset
 	} else {
 		drawMappingSpec(g.r, &spec)
+		if g.ultra {
+			spec.Map, spec.ByGam = mappingKinds[g.r.Intn(3)], false
+			spec.Alpha = engine.F64(g.r.LogUniform(1e-7, 4e-7))
+		}
 		if g.prof.prop == "C19" && !spec.ByGam && g.r.Pct(10) {
 			// the fine end of the accuracy range: neighbouring bases 1+2*alpha differ by little
 			spec.Alpha = engine.F64(g.r.LogUniform(1e-6, 1e-5))
@@ -394,9 +402,16 @@ func GenFleet(prof *fleetProfile) func(r *engine.PRNG, run int, tier string) *en
 		}
 		nNodes := r.Range(prof.minNodes, prof.maxNodes)
 		var shared *engine.Node
+		g.ultra = prof.ultrafine && r.Pct(3)
+		if g.ultra {
+			p.Config["ultrafine"] = "1"
+		}
 		for i := 0; i < nNodes; i++ {
 			role := prof.roles[r.Intn(len(prof.roles))]
 			kind := prof.stores[r.Intn(len(prof.stores))]
+			if g.ultra {
+				kind = []string{refmodel.Sparse, refmodel.Sparse, refmodel.CLow, refmodel.CHigh}[r.Intn(4)]
+			}
 			n := g.mkNode(role, kind, shared)
 			if prof.shareMap && shared == nil {
 				s := n.spec
